@@ -452,6 +452,14 @@ SoftHSM::~SoftHSM()
  Implementation of PKCS #11 functions
  *****************************************************************************/
 
+// A failed C_Initialize must not keep the singletons it created: their mutexes were
+// made with the mutex functions of that call, the next call may bring other ones
+static void releaseSingletons()
+{
+	CryptoFactory::reset();
+	SecureMemoryRegistry::reset();
+}
+
 // PKCS #11 initialisation function
 CK_RV SoftHSM::C_Initialize(CK_VOID_PTR pInitArgs)
 {
@@ -548,6 +556,7 @@ CK_RV SoftHSM::C_Initialize(CK_VOID_PTR pInitArgs)
 	if (CryptoFactory::i() == NULL)
 	{
 		ERROR_MSG("Could not load the CryptoFactory");
+		releaseSingletons();
 		return CKR_GENERAL_ERROR;
 	}
 
@@ -556,6 +565,7 @@ CK_RV SoftHSM::C_Initialize(CK_VOID_PTR pInitArgs)
 	if (!CryptoFactory::i()->getFipsSelfTestStatus())
 	{
 		ERROR_MSG("The FIPS self test failed");
+		releaseSingletons();
 		return CKR_FIPS_SELF_TEST_FAILED;
 	}
 #endif
@@ -564,6 +574,7 @@ CK_RV SoftHSM::C_Initialize(CK_VOID_PTR pInitArgs)
 	if (!Configuration::i()->reload(SimpleConfigLoader::i()))
 	{
 		ERROR_MSG("Could not load the configuration");
+		releaseSingletons();
 		return CKR_GENERAL_ERROR;
 	}
 
@@ -571,6 +582,7 @@ CK_RV SoftHSM::C_Initialize(CK_VOID_PTR pInitArgs)
 	if (!setLogLevel(Configuration::i()->getString("log.level", DEFAULT_LOG_LEVEL)))
 	{
 		ERROR_MSG("Could not set the log level");
+		releaseSingletons();
 		return CKR_GENERAL_ERROR;
 	}
 
@@ -578,6 +590,7 @@ CK_RV SoftHSM::C_Initialize(CK_VOID_PTR pInitArgs)
 	if (!ObjectStoreToken::selectBackend(Configuration::i()->getString("objectstore.backend", DEFAULT_OBJECTSTORE_BACKEND)))
 	{
 		ERROR_MSG("Could not set the storage backend");
+		releaseSingletons();
 		return CKR_GENERAL_ERROR;
 	}
 
@@ -593,6 +606,7 @@ CK_RV SoftHSM::C_Initialize(CK_VOID_PTR pInitArgs)
 		objectStore = NULL;
 		delete sessionObjectStore;
 		sessionObjectStore = NULL;
+		releaseSingletons();
 		return CKR_GENERAL_ERROR;
 	}
 
